@@ -286,10 +286,12 @@ Qed.
    footprint model of stripe_avx2 and of the three AVX2 scoring kernels. *)
 Theorem C06_footprint_first_pass_partial :
   (forall L ost, 0 <= L -> layout_ok 1 32 ost ->
-     Forall (Safe (ext_stripe L ost) balign_stripe) (fp_stripe_avx2 L ost)) /  (forall p accs,
+     Forall (Safe (ext_stripe L ost) balign_stripe) (fp_stripe_avx2 L ost)) /\
+  (forall p accs,
      sp_nonneg p -> layout_ok 1 32 (psst p) -> layout_ok 4 (pK p) (ppst p) -> layout_ok 4 32 (pdst p) ->
      wrap_score_f32_avx2 true p = Ok (Entered accs) ->
-     Forall (Safe (ext_score 4 p) balign_mat_src) accs) /  (forall p accs,
+     Forall (Safe (ext_score 4 p) balign_mat_src) accs) /\
+  (forall p accs,
      sp_nonneg p -> layout_ok 1 32 (psst p) -> layout_ok 1 (pK p) (ppst p) -> layout_ok 1 32 (pdst p) ->
      wrap_score_u8_avx2 true p = Ok (Entered accs) ->
      Forall (Safe (ext_score 1 p) balign_mat_src) accs).
